@@ -14,6 +14,7 @@ import (
 	"strings"
 	"sync"
 	"sync/atomic"
+	"syscall"
 	"time"
 )
 
@@ -47,7 +48,15 @@ var ErrTemporary net.Error = tempErr{}
 type Addr struct{ C *Conn }
 
 func (a *Addr) Network() string { return "mem" }
-func (a *Addr) String() string  { return fmt.Sprintf("mem:%d", a.C.ID) }
+func (a *Addr) String() string {
+	if AnonAddrs.Load() {
+		return "@" // what every peer of a unix-domain socket reports: addresses do not tell connections apart
+	}
+	return fmt.Sprintf("mem:%d", a.C.ID)
+}
+
+// AnonAddrs makes every connection report the same remote address string.
+var AnonAddrs atomic.Bool
 
 var connID atomic.Uint64
 
@@ -87,6 +96,7 @@ type Conn struct {
 	TempReadAt    int // the k-th Read call returns (0, ErrTemporary) once
 	TempReadFrom  int // every Read call from the k-th on returns (0, ErrTemporary): a deadline that has passed for good
 	eofWithData   bool
+	srvHalf       bool
 	TempWriteAt   int // the k-th Write call takes half of its bytes and returns (n, ErrTemporary) once
 	TempWriteMore int // ... and so do the next TempWriteMore Write calls (a peer that stays slow)
 	tempFired     int
@@ -310,6 +320,9 @@ func (c *Conn) Write(p []byte) (int, error) {
 	c.syncWait = false
 	if c.closed {
 		return 0, net.ErrClosed
+	}
+	if c.srvHalf {
+		return 0, syscall.EPIPE
 	}
 	if c.TempWriteAt > 0 && c.writes >= c.TempWriteAt && c.writes <= c.TempWriteAt+c.TempWriteMore && len(p) > 1 {
 		n := len(p) / 2
@@ -699,7 +712,7 @@ func (l *Listener) Accept() (net.Conn, error) {
 	select {
 	case c := <-l.ch:
 		l.accepted.Add(1)
-		return c, nil
+		return &SrvConn{c}, nil
 	case err := <-l.fail:
 		return nil, err
 	case <-l.done:
@@ -753,6 +766,29 @@ func (l *Listener) Dial(user any) *Conn {
 
 // DialConn hands an already configured connection (fault plan set) to Accept.
 func (l *Listener) DialConn(c *Conn) { l.ch <- c }
+
+// SrvConn is what Accept hands to the server: the connection with the half-close a TCP connection offers
+// (CloseWrite() error). After it the server's writes fail and the client reads the end of the stream, while
+// the server may go on reading - the connection is not closed by it.
+type SrvConn struct{ *Conn }
+
+func (s *SrvConn) CloseWrite() error {
+	s.mu.Lock()
+	defer s.mu.Unlock()
+	if s.closed {
+		return net.ErrClosed
+	}
+	s.srvHalf = true
+	s.cond.Broadcast()
+	return nil
+}
+
+// SrvHalfClosed reports that the server shut down its write side without closing the connection.
+func (c *Conn) SrvHalfClosed() bool {
+	c.mu.Lock()
+	defer c.mu.Unlock()
+	return c.srvHalf && !c.closed
+}
 
 // FromAddr recovers the connection from the address the library exposes to callbacks.
 func FromAddr(a net.Addr) *Conn {
